@@ -912,13 +912,17 @@ Qed.
 
 Lemma unmasked_lookup ns (m : list cls) bl o :
   In bl (nested_bases_of m) -> In o (unmasked_attrs ns bl) ->
-  exists b0 rest, bl = b0 :: rest /\ In o (ns b0) /\ lookup (defines_of ns) m (m_name o) b0.
+  exists b0 rest, bl = b0 :: rest /\ In o (ns b0) /\ m_hidden o = false /\
+                  lookup (defines_of ns) m (m_name o) b0.
 Proof.
   unfold nested_bases_of. intros Hbl Ho. apply in_map_iff in Hbl. destruct Hbl as (i & <- & Hi).
   apply in_seq in Hi. destruct Hi as [_ Hi]. cbn [Nat.add] in Hi.
-  unfold cls in *. rewrite (firstn_S_nth 0%N m i Hi) in Ho |- *. rewrite rev_app_distr in Ho |- *. cbn [rev app] in Ho |- *.
+  unfold cls in *. rewrite (firstn_S_nth 0%N m i Hi) in Ho |- *. rewrite rev_app_distr in Ho |- *.
+  cbn [rev app] in Ho |- *.
   exists (nth i m 0%N), (rev (firstn i m)). split; [reflexivity|].
   cbn [unmasked_attrs] in Ho. apply filter_In in Ho. destruct Ho as [Hin Hmask]. split; [assumption|].
+  apply andb_true_iff in Hmask. destruct Hmask as [Hvis Hmask]. apply negb_true_iff in Hvis.
+  split; [assumption|].
   apply negb_true_iff, mem_false_iff in Hmask.
   exists (firstn i m), (skipn (S i) m). repeat split.
   - apply split_at_nth. exact Hi.
@@ -930,6 +934,26 @@ Proof.
     exfalso. apply Hmask. apply find_some in E. destruct E as [Hin' He]. apply N.eqb_eq in He.
     apply in_flat_map. exists x. split; [now apply -> in_rev|].
     rewrite <- He. now apply in_map.
+Qed.
+
+(* conversely: a visible member of the class attribute lookup stops at is listed, under that class *)
+Lemma lookup_unmasked ns (m : list cls) b0 o :
+  lookup (defines_of ns) m (m_name o) b0 -> In o (ns b0) -> m_hidden o = false ->
+  exists rest, In (b0 :: rest) (nested_bases_of m) /\ In o (unmasked_attrs ns (b0 :: rest)).
+Proof.
+  intros (before & after & -> & _ & Hb) Hin Hvis.
+  exists (rev before). split.
+  - unfold nested_bases_of. apply in_map_iff. exists (length before). split.
+    + assert (Hf : firstn (S (length before)) (before ++ b0 :: after) = before ++ [b0]).
+      { clear. induction before as [|a l IH]; [reflexivity|]. cbn [length app firstn]. f_equal. exact IH. }
+      unfold cls in *. rewrite Hf, rev_app_distr. reflexivity.
+    + apply in_seq. rewrite app_length. cbn [length]. lia.
+  - cbn [unmasked_attrs]. apply filter_In. split; [assumption|]. rewrite Hvis. cbn [negb andb].
+    apply negb_true_iff, mem_false_iff. intros Hm. apply in_flat_map in Hm. destruct Hm as (x & Hx & Hn).
+    apply in_rev in Hx. specialize (Hb x Hx). unfold defines_of, contents_get in Hb.
+    apply in_map_iff in Hn. destruct Hn as (o' & He & Ho').
+    destruct (find (fun m0 => N.eqb (m_name m0) (m_name o)) (ns x)) eqn:E; [discriminate|].
+    pose proof (find_none _ _ E o' Ho') as Hf. cbn beta in Hf. rewrite He, N.eqb_refl in Hf. discriminate.
 Qed.
 
 (* ================================================================================================
